@@ -1108,6 +1108,12 @@ def r7_lifetime_and_wire(ctx):
 
 def _through_property(repo, ci, e, pol):
     """A fact that is the truth of `self.<property>` stands for what the property returns (single-return getter)."""
+    if isinstance(e, ast.Call) and not e.args and not e.keywords and isinstance(e.func, ast.Attribute) \
+            and isinstance(e.func.value, ast.Name) and e.func.value.id == "self":
+        m = repo.lookup_method(ci, e.func.attr)          # `self._window_full()`: a predicate method
+        rets = [r for r in walk(m.node) if isinstance(r, ast.Return)] if m is not None else []
+        if len(rets) == 1 and rets[0].value is not None and len(m.node.args.args) == 1:
+            return rets[0].value, pol
     if isinstance(e, ast.Attribute) and isinstance(e.value, ast.Name) and e.value.id == "self":
         m = repo.lookup_method(ci, e.attr)
         if m is not None and any((ap(d) or "").split(".")[-1] == "property" for d in m.node.decorator_list):
